@@ -7,6 +7,7 @@ Tie K (every run, generated inputs):
   * func_adl `simplify_chained_calls`                         vs  `simp`
   * qastle printer / parser                                   vs  `wprint` / `wparse`
   * `process_metadata` under permutation                      vs  `procMd`
+  * `generate_script_block`                                   vs  `emitScripts`
 Spec on the implementation (reference free): the REAL pipeline (`apply_ast_transformations` + `write_cpp_files`) is
 run on a generated query and on its mechanically produced variants; `SameOutcome` (Lean) judges the two packages.
 """
@@ -17,7 +18,7 @@ import json
 from typing import Any, Dict, List, Optional, Tuple
 
 ID = "C08"
-LEAN_MODULES = ["FaxVerif.C08.Theorems"]
+LEAN_MODULES = ["FaxVerif.C08.Theorems", "FaxVerif.C08.MdTheorems", "FaxVerif.C08.ExtTheorems"]
 LEAN_SOURCES = ["FaxVerif/C08"]
 DRIVER = "FaxVerif/C08/Driver.lean"
 THEOREMS = [
@@ -49,6 +50,20 @@ THEOREMS = [
     "FaxVerif.C08.md_many",
     "FaxVerif.C08.proc_perm_partial",
     "FaxVerif.C08.proc_perm_counterexample",
+    # (c) continued: process_metadata as one fold per registry; what the order can and cannot change
+    "FaxVerif.C08.procMd_factors",
+    "FaxVerif.C08.md_interleave",
+    "FaxVerif.C08.method_type_ignores_enums",
+    "FaxVerif.C08.types_last_wins",
+    "FaxVerif.C08.enums_first_wins",
+    "FaxVerif.C08.injects_in_order",
+    "FaxVerif.C08.mdSame_of_commuting",
+    "FaxVerif.C08.scripts_chain_any_order",
+    "FaxVerif.C08.scripts_independent_in_list_order",
+    "FaxVerif.C08.scripts_order_counterexample",
+    # (d) continued: the place func_adl's simplifier leaves to the translator
+    "FaxVerif.C08.selectmany_second_lambda_unvisited",
+    "FaxVerif.C08.chain_left_to_translator",
     # (a) wire format
     "FaxVerif.C08.wire_partial",
     "FaxVerif.C08.wire_roundtrip",
@@ -74,12 +89,24 @@ RULE = (
     "the two lambdas and, when nothing is duplicated, by substitution; one step unfused; call style flipped; all of these combined; qastle "
     "text of the base and of the combined variant. Every pair is first judged by Lean to be in the relation the property quantifies over "
     "and outside the defect exclusions; then both are translated by the real pipeline and `SameOutcome` is evaluated. Plus: 300/3000 "
-    "random operation sequences on argument_stack, 40/400 permuted metadata lists through process_metadata, the listed findings and the "
-    "corpus. A comparison is non-trivial when the variant differs from the base and both translations succeed; distinct = distinct "
+    "random operation sequences on argument_stack, 40/400 permuted metadata lists through process_metadata (half of them with an enum and "
+    "the type information of methods returning it), the listed findings and the corpus. Directed families (tools/c08_lib/directed.py), run "
+    "first, quick: one backend per case in rotation, thorough: all three: `md-dependent` — 16 bundles of INTERDEPENDENT metadata items (enum "
+    "+ method returning it with/without tree_type, two enums, enum used in a cut, enum defined twice, C++ functions + calls, collections + "
+    "methods of their elements, job scripts in a dependency chain / with a duplicate / independent / with a missing dependency, injected "
+    "blocks with a duplicate / a conflict, a re-declared method, everything at once), each in all re-orderings (<= 4 items) or identity, "
+    "reversal, every adjacent transposition and random ones, all at the dataset / all at the root / spread over chain positions and "
+    "sub-streams in lambda bodies; a pair is compared when the extraction order is kept or Lean's `mdSameB` (model of process_metadata + "
+    "generate_script_block) cannot tell the two orders apart; `alpha-echo` — the same predicate / value text (plug-in method, plug-in "
+    "function, typed method, subscript, math call, enum constant, if-else) in nested scopes (5 nestings), the inner parameter spelled like "
+    "the outer one / like the event parameter / differently; `fuse-left` — six Select.Select / Where.Where chains in the lambda of the "
+    "second of two chained SelectMany calls (top level, followed by a Select, nested) and in an ordinary lambda (control), fused as "
+    "composition and by substitution. The random generator also repeats earlier predicates in inner lambdas, builds predicates from the "
+    "plug-ins, uses an enum-typed method (column, cut) and writes SelectMany over objects at top level. A comparison is non-trivial when the variant differs from the base and both translations succeed; distinct = distinct "
     "(backend, kind, base, variant)."
 )
 TRUSTED_BASE = [
-    "hand models of func_adl's argument_stack, extract_metadata, change_extension_functions_to_calls + aggregate_node_transformer, simplify_chained_calls, of qastle's printer/parser at token level and of the order-relevant part of process_metadata (Model.lean, Spec.lean), each tied to the real function by differential execution on this run's inputs",
+    "hand models of func_adl's argument_stack, extract_metadata, change_extension_functions_to_calls + aggregate_node_transformer, simplify_chained_calls, of qastle's printer/parser at token level, of the order-relevant part of process_metadata and of generate_script_block (Model.lean, MdModel.lean, Spec.lean), each tied to the real function by differential execution on this run's inputs",
     "the abstract translator `eval` (any algebra of handlers that receive representations and state but never a bound name): that the handlers of the real 1500-line visitor are of this kind is not proved; the conclusion is checked directly on the real pipeline for every generated pair, and the one place where it is false (ast.unparse of the query inside the First() diagnostic) is a listed finding",
     "the translator is a function of the simplified AST *as a graph* (func_adl substitutes shared objects, the translator caches per object): Lean models trees; fusing variants are therefore only compared where the fusing site's stream does not simplify to a Select/SelectMany/Where and the fused lambdas mention no outer parameter (`fuseSiteOkB`), the other cases are listed findings",
     "harness tools/props/c08.py + tools/c08_lib (generators, variant producers, lexer that marks generated names in declaring positions, replay)",
@@ -99,9 +126,16 @@ LEVEL_TEXT = (
     "translated identically whatever the table says about them, so parameters may be spelled like declared namespaces; func_adl's "
     "simplifier respects alpha exactly on the capture-free queries (decidable), with four proved counterexamples outside; (c) attaching a "
     "MetaData call at any valid position leaves the extracted query unchanged and inserts its dictionary into the list, any number of "
-    "placements give a permutation, and process_metadata's registries do not depend on the order of non-conflicting items; (d) separately "
+    "placements give a permutation, and process_metadata's registries do not depend on the order of non-conflicting items; process_metadata "
+    "is exactly five independent folds, one per registry (no registry reads another: a method's recorded type does not depend on whether "
+    "the enum it names is defined yet), so every interleaving of the per-registry sequences gives the same state or the same refusal, and "
+    "inside one registry the order shows exactly as: last method-type declaration wins, first enum definition wins, injected blocks in "
+    "list order, job scripts through generate_script_block (a dependent pair comes out the same in both orders, an independent pair in "
+    "list order); (d) separately "
     "written and fused Select.Select / Where.Where chains have alpha-equal normal forms for scalar lambda bodies over a stream that is not "
-    "itself a Select/Where (counterexample proved otherwise); (a) qastle's text format at token level parses back what it prints up to "
+    "itself a Select/Where (counterexample proved otherwise); the lambda of the second of two chained SelectMany calls is returned by the "
+    "simplifier exactly as written (so chains inside it are composed by the translator: compared by the harness through the completed "
+    "normal form); (a) qastle's text format at token level parses back what it prints up to "
     "tuple->list, and a translator that does not tell tuple from list is unaffected. Each model is run against the real function on every "
     "generated input of every run, and the Spec (same package up to first-occurrence renumbering of generated names) is evaluated on the "
     "real pipeline's output for every generated query and variant on the three backends."
@@ -111,11 +145,14 @@ LEVEL_NOTE = (
     "that the real visitor's handlers use names only through the frame stack — the pipeline stream checks that conclusion directly. "
     "Proof frontier (sampled only): fusion with nested sequence operators or tuple projection inside the lambda bodies; alpha-invariance of "
     "the simplifier is proved relative to the decidable `captureFree0` rather than from syntactic conditions. Defect exclusions, each with a "
-    "concrete listed finding (12) and, where the model can express it, a Lean counterexample: First() diagnostic embeds parameter names; "
+    "concrete listed finding (14) and, where the model can express it, a Lean counterexample: First() diagnostic embeds parameter names; "
     "func_adl's Where-fusion / direct lambda calls capture shadowing parameters (also `acc`/`v` around Count/Sum, and `arg_N`); a "
     "Select/Where pushed into a SelectMany lambda is captured by its parameter; in-place rewriting of shared AST objects produces C++ that "
     "does not compile; re-association / duplicated selections when fusing over Select/Where; qastle re-associates n-ary and/or, drops unary "
-    "plus on constants and accepts chained comparisons the AST path refuses."
+    "plus on constants and accepts chained comparisons the AST path refuses; two chained Wheres in a lambda the simplifier does not visit are "
+    "translated to nested ifs, the fused one to a single short-circuit test. For metadata orders the criterion `mdSameB` is evaluation of "
+    "the model on both orders (it contains the proved `commutingAll` criterion: `mdSame_of_commuting`); the general statement 'equal "
+    "emitScripts for every order of a dependency chain of any length' is proved for two blocks and checked by evaluation for longer ones."
 )
 TECHNIQUE = "Lean 4 theorems over executable models + correspondence (differential execution against func_adl, qastle, process_metadata) + reference-free comparison of variants on the real pipeline (Spec evaluated by the Lean driver)"
 DESIGN_REF = "DESIGN.md §4 C08"
@@ -128,6 +165,12 @@ def _lib():
     from c08_lib import gen, pipeline, terms, variants
 
     return terms, gen, variants, pipeline
+
+
+def _directed():
+    from c08_lib import directed
+
+    return directed
 
 
 # ---------------------------------------------------------------- real functions used by the tie
@@ -273,7 +316,7 @@ def stable(o: Any) -> Any:
     if isinstance(o, (str, int, float, bool)) or o is None:
         return o
     d = {"class": type(o).__name__, "str": str(o)}
-    for a in ("p_depth", "is_const"):
+    for a in ("p_depth", "is_const", "tree_type"):
         if hasattr(o, a):
             d[a] = getattr(o, a)
     if hasattr(o, "element_type"):
@@ -294,6 +337,7 @@ def real_procmd(mds: List[Dict[str, Any]], keys: List[str]) -> Dict[str, Any]:
 
     def solo(d):
         ctyp.g_method_type_dict = {}
+        ctyp.g_toplevel_ns.clear()
         r = process_metadata([d])
         return _observe_one(d, r, ctyp)
 
@@ -309,10 +353,12 @@ def real_procmd(mds: List[Dict[str, Any]], keys: List[str]) -> Dict[str, Any]:
     except Exception:
         solos = {}
     ctyp.g_method_type_dict = {}
+    ctyp.g_toplevel_ns.clear()
     try:
         r = process_metadata(list(mds))
     except Exception as e:
         ctyp.g_method_type_dict = {}
+        ctyp.g_toplevel_ns.clear()
         return {"err": type(e).__name__}
     types = []
     for k in keys:
@@ -324,6 +370,7 @@ def real_procmd(mds: List[Dict[str, Any]], keys: List[str]) -> Dict[str, Any]:
         if isinstance(s, (CPPCodeSpecification, EventCollectionSpecification)):
             fns[s.name] = srepr(s)
     ctyp.g_method_type_dict = {}
+    ctyp.g_toplevel_ns.clear()
     return {
         "types": types,
         "fns": [fns.get(k) for k in keys],
@@ -363,7 +410,7 @@ def build_case(rng, backend: str, depth: int) -> Case:
         v = Vr.place(rng, q, mdt, mode)
         add("md-" + mode, v, {"kind": "md", "q": base, "q2": v, "need": "sameOrder"})
     v = Vr.place(rng, q, mdt, "free")
-    add("md-free", v, {"kind": "md", "q": base, "q2": v, "need": "commuting"})
+    add("md-free", v, {"kind": "md", "q": base, "q2": v, "need": "mdsame"}, md_order=order_of(mdt, Vr.strip_py(v)[1]))
     # (b) alpha
     for k in range(2):
         r = Vr.rename(rng, q, shadow_p=0.7 if k == 0 else 0.3)
@@ -413,6 +460,32 @@ def build_case(rng, backend: str, depth: int) -> Case:
     except Exception as e:  # qastle refuses the query: counted, nothing to compare
         c.qastle_refused = type(e).__name__
     return c
+
+
+def order_of(mdt: List[Any], extracted: List[Any]) -> List[int]:
+    """the extraction order of a variant as indices into the case's metadata list (equal items: first unused index)"""
+    used: set = set()
+    out: List[int] = []
+    for t in extracted:
+        i = next(k for k, m in enumerate(mdt) if m == t and k not in used)
+        used.add(i)
+        out.append(i)
+    return out
+
+
+def mdsame_request(c: "Case", order: List[int]) -> Dict[str, Any]:
+    """Lean: can the model of process_metadata + generate_script_block tell the two orders apart?"""
+    D = _directed()
+    items = [md_item(m) for m in c.mds]
+    mds2 = [c.mds[i] for i in order]
+    return {
+        "op": "mdsame",
+        "items": items,
+        "items2": [items[i] for i in order],
+        "scripts": D.script_blocks(c.mds),
+        "scripts2": D.script_blocks(mds2),
+        "scriptsUsed": c.backend == "atlas",  # only the ATLAS job options render the script blocks
+    }
 
 
 def spelled_like(T, t, G: Dict[str, List[str]]) -> List[str]:
@@ -512,6 +585,10 @@ def decide_variant(v: Dict[str, Any], ans: Dict[str, Any], commuting: bool) -> O
         return "not-related"
     if rel.get("need") == "commuting" and not (commuting or ans.get("sameOrder", False)):
         return "excluded:metadata-order"
+    if rel.get("need") == "mdsame" and not (ans.get("sameOrder", False) or v.get("md_ans", {}).get("same", False)):
+        # the model of process_metadata / generate_script_block tells the two orders apart (a later declaration of a
+        # method's type wins, injected blocks and independent job scripts are emitted in list order)
+        return "excluded:metadata-order"
     if not ans.get("captureFree", False):
         # func_adl's simplifier captures a name in one of the two queries (listed findings F2, F2b, F3, F10)
         why = "shadowed-redex-parameter" if ans.get("shadowRisk") else "arg_N-name" if ans.get("argNameRisk") else "other"
@@ -522,6 +599,15 @@ def decide_variant(v: Dict[str, Any], ans: Dict[str, Any], commuting: bool) -> O
         if not ans.get("siteOk", False):
             return "excluded:fusion-site-over-select/where"
         if not ans.get("sameNF", False):
+            # func_adl's single visit gives different normal forms.  Where the COMPLETED normal forms agree the only
+            # difference is a chain func_adl leaves for the translator to compose (the lambda of the second of two chained
+            # SelectMany calls is not visited): the property asks for the same package.  For Where.Where that is false of
+            # the code as it stands (nested `if`s against one `&&`: listed finding), so only Select chains are compared.
+            if ans.get("sameNF2", False) and v["kind"].endswith("-Select"):
+                v["left_to_translator"] = True
+                return None
+            if ans.get("sameNF2", False):
+                return "excluded:where-chain-left-to-translator"
             return "excluded:fusion-changes-normal-form"
     return None
 
@@ -535,9 +621,17 @@ def process_cases(ctx, cases: List[Case], stream: str, tie: bool = True) -> List
         for v in c.variants:
             reqs.append(rel_request(T, v["rel"]))
         reqs.append({"op": "procmd", "items": [md_item(m) for m in c.mds], "keys": []})
+    n_rel = len(reqs)
+    with_order = [(c, v) for c in cases for v in c.variants if v.get("md_order") is not None]
+    reqs += [mdsame_request(c, v["md_order"]) for c, v in with_order]
     TIMER.lap("generate queries and variants")
     ans = ctx.driver(DRIVER, reqs)
     TIMER.lap("lean: relations and exclusions")
+    for (c, v), a in zip(with_order, ans[n_rel:]):
+        v["md_ans"] = a
+        if "bad" not in a:
+            ctx.count(f"{getattr(c, 'stream', stream)}:metadata-order:" + ("same-order" if v["md_order"] == sorted(v["md_order"]) else "model-cannot-tell-apart" if a.get("same") else "model-tells-apart")
+                      + (":kinds-interleaved-only" if a.get("sameByKind") and v["md_order"] != sorted(v["md_order"]) else ""))
     i = 0
     for c in cases:
         vs = c.variants
@@ -635,14 +729,17 @@ def process_cases(ctx, cases: List[Case], stream: str, tie: bool = True) -> List
                     "same_package_up_to_numbering": holds,
                 },
             )
-            ctx.count(f"{stream}:{v['kind']}:" + ("ok" if both_ok else "both-refused" if holds else "one-refused"))
+            ctx.count(f"{getattr(c, 'stream', stream)}:{v['kind']}:" + ("ok" if both_ok else "both-refused" if holds else "one-refused"))
             if not strict and a["diag"] and not a["strict"]:
                 ctx.count("diag-text-differs(known F1 class)")
+            if v.get("left_to_translator"):
+                ctx.count("fusion-left-to-the-translator:" + ("ok" if both_ok else "refused"))
             if v["kind"] == "alpha-global" and v["rel_ans"].get("binderLikeGlobal"):
                 # a parameter spelled like a namespace this query declares: Lean says whether the query also reads that
                 # namespace as a free name elsewhere (alpha_translate) or not at all (alpha_global)
                 ctx.count("parameter-spelled-like-declared-namespace:" + ("namespace-also-read-free" if v["rel_ans"].get("readsGlobal") else "namespace-unread"))
             if not holds:
+                ctx.count(f"{getattr(c, 'stream', stream)}:{v['kind']}:PACKAGES-DIFFER")
                 failures.append({"case": c, "variant": v, "answer": a, "key": key})
         elif what == "strip":
             c, v, rs = payload
@@ -779,7 +876,7 @@ def procmd_stream(ctx, n: int):
     reqs, meta = [], []
     for _ in range(n):
         b = rng.choice(["atlas", "cms_aod", "cms_miniaod"])
-        mds = gen.data_model(b)[: rng.randint(1, 14)] + gen.extra_md(rng, b)
+        mds = gen.data_model(b)[: rng.randint(1, 14)] + gen.extra_md(rng, b) + (gen.enum_typed_md(rng) if rng.random() < 0.5 else [])
         rng.shuffle(mds)
         perm = list(mds)
         rng.shuffle(perm)
@@ -820,6 +917,61 @@ def procmd_stream(ctx, n: int):
             )
 
 
+def scripts_stream(ctx, n: int):
+    """generate_script_block against Lean `emitScripts` on random lists of job script blocks (duplicates, chains,
+    missing dependencies, cycles), each also in a second order: model = code, and where the model gives the same lines for
+    both orders the code must too."""
+    from func_adl_xAOD.common.meta_data import JobScriptSpecification, generate_script_block
+
+    rng = ctx.rng
+
+    def real(bl):
+        try:
+            return {"ok": list(generate_script_block([JobScriptSpecification(name=b[0], script=list(b[1]), depends_on=list(b[2])) for b in bl]))}
+        except Exception as e:
+            return {"err": type(e).__name__}
+
+    lists = []
+    for _ in range(n):
+        names = ["s1", "s2", "s3", "s4"][: rng.randint(1, 4)]
+        bl = []
+        for nm in names:
+            earlier = [x for x in names if x < nm]
+            deps = [d for d in earlier if rng.random() < 0.5]
+            if rng.random() < 0.12:
+                deps.append(rng.choice(names + ["nowhere"]))  # a cycle, a self-dependency or a missing block
+            bl.append([nm, [f"# {nm} line {i}" for i in range(rng.randint(1, 2))], deps])
+        if rng.random() < 0.3:
+            d = list(rng.choice(bl))
+            d = [d[0], d[1] if rng.random() < 0.8 else ["# other text"], [x for x in names if rng.random() < 0.3]]
+            bl.append(d)
+        rng.shuffle(bl)
+        perm = list(bl)
+        rng.shuffle(perm)
+        lists.append((bl, perm))
+    ans = ctx.driver(DRIVER, [{"op": "emitscripts", "scripts": l} for pair in lists for l in pair])
+    for i, (bl, perm) in enumerate(lists):
+        a1, a2 = ans[2 * i], ans[2 * i + 1]
+        if "bad" in a1 or "bad" in a2:
+            continue
+        r1, r2 = real(bl), real(perm)
+        ctx.count("tie:generate_script_block", 2)
+        ctx.count("scripts:" + ("refused" if "err" in r1 else "emitted"))
+        ctx.case(["scripts", bl, perm], bl != perm, None)
+        for a, r, l in ((a1, r1, bl), (a2, r2, perm)):
+            if a != r:
+                ctx.disagreement("generate_script_block", {"blocks": l}, a, r)
+        if a1 == a2:
+            ctx.count("scripts:order-invisible-to-the-model")
+            if r1 != r2:
+                ctx.violation(
+                    key="scripts|" + json.dumps([bl, perm], sort_keys=True),
+                    what="generate_script_block gives different job option lines for two orders of script blocks whose order the dependencies fix",
+                    case={"kind": "scripts", "blocks": bl, "perm": perm},
+                    observed=[r1, r2],
+                )
+
+
 def known_stream(ctx):
     """Replay every listed finding and every corpus case on the real code (one driver call for all of them).
     A listed finding that still fails is announced under its key; a corpus case (a minimised failing input of an
@@ -854,6 +1006,78 @@ def known_stream(ctx):
             )
 
 
+def dependent_cases(ctx, quick: bool) -> List[Case]:
+    """(c) several interdependent metadata items re-ordered and moved along the chain (c08_lib/directed.py)."""
+    T, gen, Vr, P = _lib()
+    D = _directed()
+    rng = ctx.rng
+    cases: List[Case] = []
+    for bi, b in enumerate(P.BACKENDS):
+        for k, bun in enumerate(D.dependent_bundles(b)):
+            scripts = any(m.get("metadata_type") == "add_job_script" for m in bun["mds"])
+            if quick and b != ("atlas" if scripts else P.BACKENDS[(k + ctx.seed) % 3]):
+                continue  # quick: one backend per bundle in rotation; job scripts show on ATLAS only
+            c = Case(b, bun["q"], bun["mds"], {"md-dependent:" + bun["label"]: 1})
+            c.mdt = [gen.md_term(m) for m in bun["mds"]]
+            n = len(c.mdt)
+            c.base = D.place_order(rng, bun["q"], c.mdt, list(range(n)), "bottom")
+            for o in D.orders(rng, n, (bun["sample"] if not quick else min(bun["sample"], 3) if n != 4 else 3)):
+                if quick:  # one placement per re-ordering (in rotation), two for the canonical order
+                    modes = ["top", "spread"] if o == list(range(n)) else [("bottom", "spread", "top")[len(c.variants) % 3]]
+                else:
+                    modes = ["bottom", "top", "spread"]
+                for mode in modes:
+                    v = D.place_order(rng, bun["q"], c.mdt, o, mode)
+                    if v == c.base:
+                        continue
+                    c.variants.append({"kind": "md-order", "term": v, "rel": {"kind": "md", "q": c.base, "q2": v, "need": "mdsame"}, "strict": True, "md_order": list(o), "label": bun["label"]})
+            cases.append(c)
+    return cases
+
+
+def echo_cases(ctx, quick: bool) -> List[Case]:
+    """(b) the same expression text in nested scopes, the inner parameter spelled like the outer one or not."""
+    T, gen, Vr, P = _lib()
+    D = _directed()
+    cases: List[Case] = []
+    for b in P.BACKENDS:
+        for k, e in enumerate(D.echo_cases(b)):
+            if quick and (b != P.BACKENDS[(k + ctx.seed) % 3] or (k + ctx.seed // 3) % 2 == 1 and "plugin-method" not in e["label"]):
+                continue  # quick: one backend per case, every second template (the plug-in method ones always)
+            c = Case(b, e["q"], e["mds"], {"alpha-echo:" + e["label"].split("/")[0]: 1})
+            c.mdt = [gen.md_term(m) for m in e["mds"]]
+            c.base = Vr.place(ctx.rng, e["q"], c.mdt, "bottom")
+            for vl, v in e["variants"]:
+                if quick and vl == "outer-reused":
+                    continue
+                c.variants.append({"kind": "alpha-echo", "term": Vr.place(ctx.rng, v, c.mdt, "bottom"), "rel": {"kind": "alpha", "q": e["q"], "q2": v}, "strict": False, "label": e["label"] + "/" + vl})
+            cases.append(c)
+    return cases
+
+
+def fuse_left_cases(ctx, quick: bool) -> List[Case]:
+    """(d) chained Select/Where steps where func_adl's simplifier does not go: fused by hand against left to the translator."""
+    T, gen, Vr, P = _lib()
+    D = _directed()
+    cases: List[Case] = []
+    for b in P.BACKENDS:
+        for k, e in enumerate(D.fuse_left_cases(b)):
+            if quick and b != P.BACKENDS[(k + ctx.seed) % 3]:
+                continue
+            c = Case(b, e["q"], e["mds"], {"fuse-left:" + e["label"].split("/")[0]: 1})
+            c.mdt = [gen.md_term(m) for m in e["mds"]]
+            c.base = Vr.place(ctx.rng, e["q"], c.mdt, "bottom")
+            qc = real_style(e["q"])
+            for p, name in Vr.fusable(qc):
+                fa = Vr.fuse_at(qc, p, "A", "z_f")
+                c.variants.append({"kind": "fuseA-" + name, "term": Vr.place(ctx.rng, fa, c.mdt, "bottom"), "rel": {"kind": "fuse", "q": qc, "q2": fa, "path": list(p), "z": "z_f"}, "strict": False})
+                fb = Vr.fuse_at(qc, p, "B", "z_f")
+                if fb is not None:
+                    c.variants.append({"kind": "fuseB-" + name, "term": Vr.place(ctx.rng, fb, c.mdt, "bottom"), "rel": {"kind": "nf", "q": qc, "q2": fb, "path": list(p), "sep": qc}, "strict": False})
+            cases.append(c)
+    return cases
+
+
 class Timer:
     def __init__(self):
         import time
@@ -880,9 +1104,21 @@ def run(ctx):
     known_stream(ctx)
     TIMER.lap("known findings + corpus")
     quick = ctx.tier == "quick"
+    # the directed families of the three clauses (c), (b), (d): the package-level comparisons come first, so that a
+    # replay file shows the property's own statement failing (two placements / spellings / chainings, two packages)
+    directed: List[Case] = []
+    for name, mk in (("md-dependent", dependent_cases), ("alpha-echo", echo_cases), ("fuse-left", fuse_left_cases)):
+        for c in mk(ctx, quick):
+            c.stream = name
+            directed.append(c)
+    for i in range(0, len(directed), 150):  # one pair of driver runs per 150 cases
+        report_failures(ctx, process_cases(ctx, directed[i : i + 150], "directed", tie=False))
+        ctx.check_time()
+    TIMER.lap("directed streams (md-dependent, alpha-echo, fuse-left)")
     stack_stream(ctx, 300 if quick else 3000)
     procmd_stream(ctx, 40 if quick else 400)
-    TIMER.lap("stack+procmd streams")
+    scripts_stream(ctx, 60 if quick else 600)
+    TIMER.lap("stack+procmd+scripts streams")
     # every list-valued metadata key of every metadata kind written as a tuple: Python AST vs qastle text
     cases = [wire_metadata_case(b, label, q, mds) for b in P.BACKENDS for label, q, mds in gen.wire_metadata_cases(b)]
     report_failures(ctx, process_cases(ctx, cases, "wire-metadata", tie=not quick))
@@ -954,7 +1190,7 @@ def shrink(ctx, case: Dict[str, Any]) -> Dict[str, Any]:
             trial = [x for x in needed if x != m]
             cand = dict(case)
             cand["base"] = T.to_json(Vr.attach(b, [((), x) for x in trial]))
-            cand["variant"] = T.to_json(Vr.attach(v, [((), x) for x in trial if x in vm]))
+            cand["variant"] = T.to_json(Vr.attach(v, [((), x) for x in vm if x in trial]))  # the variant keeps ITS order
             r = compare_pair(ctx, cand)
             if not r["holds"] and "ok" in r["base"]:
                 needed = trial
@@ -1029,6 +1265,18 @@ def shrink_names(ctx, case: Dict[str, Any]) -> Dict[str, Any]:
 
 def replay(ctx, rep) -> int:
     case = rep["case"]
+    if case.get("kind") == "scripts":
+        from func_adl_xAOD.common.meta_data import JobScriptSpecification, generate_script_block
+
+        def real(bl):
+            try:
+                return generate_script_block([JobScriptSpecification(name=b[0], script=list(b[1]), depends_on=list(b[2])) for b in bl])
+            except Exception as e:
+                return type(e).__name__
+
+        r1, r2 = real(case["blocks"]), real(case["perm"])
+        print("generate_script_block, two orders:", r1, r2)
+        return 0 if r1 == r2 else 1
     if case.get("kind") == "procmd":
         r1, r2 = real_procmd(case["mds"], case["keys"]), real_procmd(case["perm"], case["keys"])
         same = {k: v for k, v in r1.items() if k != "solos"} == {k: v for k, v in r2.items() if k != "solos"}
